@@ -127,6 +127,8 @@ class GeminiClientProtocol(asyncio.Protocol):
             # (no body expected for non-success responses)
             if not (20 <= self.status < 30):
                 self.transport.close()  # type: ignore
+                # Whatever followed the header in this read is not a body
+                return
 
         # Check if we've received too much data (prevent memory exhaustion)
         if len(self.buffer) > MAX_RESPONSE_BODY_SIZE:
